@@ -19,6 +19,8 @@ def upow(h, k):
     if isinstance(h, np.ndarray):
         h = h[()]
     if isinstance(h, Poly):
+        if h.is_const() and Fraction(k).denominator == 1:
+            return Poly.const(Fraction(h.cval()) ** int(k))
         (m, c), = h.t.items()
         assert c == 1
         return Poly({tuple((v, P._norm(Fraction(e) * Fraction(k))) for v, e in m): 1}) if k != 0 else Poly.const(1)
